@@ -69,6 +69,47 @@ def bytes_accumulators(fnode):
     return f
 
 
+def list_accumulators(fnode):
+    """Clone of fnode in which  x = [] ... x.append(e)  becomes  x = () ... x = x + (e,)  when x is otherwise only read
+    (so that the loop summary shows what is collected, in order)."""
+    f = clone(fnode)
+    parents = {}
+    for n in ast.walk(f):
+        for c in ast.iter_child_nodes(n):
+            parents[c] = n
+    cands = {}
+    for st in ast.walk(f):
+        if isinstance(st, ast.Assign) and len(st.targets) == 1 and isinstance(st.targets[0], ast.Name) and \
+                isinstance(st.value, ast.List) and not st.value.elts:
+            cands.setdefault(st.targets[0].id, []).append(st)
+    for name, inits in cands.items():
+        ok, appends = True, []
+        for n in ast.walk(f):
+            if isinstance(n, ast.Name) and n.id == name:
+                p = parents.get(n)
+                if isinstance(n.ctx, ast.Store):
+                    if not (isinstance(p, ast.Assign) and p in inits):
+                        ok = False
+                    continue
+                if isinstance(p, ast.Attribute):
+                    if p.attr == "append" and isinstance(parents.get(p), ast.Call) and isinstance(parents.get(parents.get(p)), ast.Expr) and \
+                            len(parents[p].args) == 1:
+                        appends.append(parents[parents[p]])
+                    else:
+                        ok = False   # another method: extend, sort, pop ...
+        if not ok or not appends:
+            continue
+        for st in inits:
+            st.value = ast.copy_location(ast.Tuple(elts=[], ctx=ast.Load()), st.value)
+        for ex in appends:
+            e = ex.value.args[0]
+            new = ast.copy_location(ast.Assign(targets=[ast.Name(id=name, ctx=ast.Store())], value=ast.BinOp(
+                left=ast.Name(id=name, ctx=ast.Load()), op=ast.Add(), right=ast.Tuple(elts=[e], ctx=ast.Load()))), ex)
+            _replace(f, ex, new)
+    ast.fix_missing_locations(f)
+    return f
+
+
 def _replace(root, old, new):
     for n in ast.walk(root):
         for field, val in ast.iter_fields(n):
